@@ -89,6 +89,17 @@ func (f *FD) FieldTag() string {
 	return t
 }
 
+// GoName translates the symbolic field names of the specification (which stays ASCII) to Go identifiers.
+func GoName(gn string) string {
+	switch {
+	case strings.HasPrefix(gn, "NAlower"):
+		return "\u00f1" + gn[len("NAlower"):] // ñ...: unexported, not ASCII
+	case strings.HasPrefix(gn, "NAupper"):
+		return "\u00d1" + gn[len("NAupper"):] // Ñ...: exported, not ASCII
+	}
+	return gn
+}
+
 func isExported(name string) bool {
 	r, _ := utf8.DecodeRuneInString(name)
 	return !unicode.IsLower(r)
@@ -141,8 +152,8 @@ func GoType(t *TD) reflect.Type {
 		var fs []reflect.StructField
 		for i := range t.F {
 			f := &t.F[i]
-			sf := reflect.StructField{Name: f.GN, Type: GoType(f.T), Tag: reflect.StructTag(f.FieldTag())}
-			if !isExported(f.GN) {
+			sf := reflect.StructField{Name: GoName(f.GN), Type: GoType(f.T), Tag: reflect.StructTag(f.FieldTag())}
+			if !isExported(GoName(f.GN)) {
 				sf.PkgPath = pkgPath
 			}
 			fs = append(fs, sf)
